@@ -286,12 +286,27 @@ klass(BPRP, fields=dict(key_bit_length=TInt, message_bit_length=TInt, underlying
       gen=lambda rnd: dict(key_bit_length=rnd.choice([8, 128, 256]), message_bit_length=rnd.choice([2, 3, 8, 9, 16, 161]),
                            underlying_fpe=obj(FFX, rounds=10, digest_size=20)))
 inline(ABP + ".__init__")
+# the value of the PRP as one specification function (what callers reason with): the Feistel state formula above
+prp_value = specfn("prp_value", [TBytes, TInt, TInt, TInt], TInt, macro=True,
+                   py=lambda kb, R, n, v: (lambda h: fav.py(kb, R, v >> h, n - h, v & ((1 << h) - 1), h) * (1 << fbl.py(kb, R, v >> h, n - h, v & ((1 << h) - 1), h))
+                                           + fbv.py(kb, R, v >> h, n - h, v & ((1 << h) - 1), h))((n + 1) // 2),
+                   doc="value of BitwiseFPEPRP(key bytes kb, R rounds) on the n-bit message with value v")
+
+
+def _prp_value_def(kb, R, n, v):
+    h = (n + 1) / 2
+    a0 = (v / pow2(h), n - h, v % pow2(h), h)
+    return fav(kb, R, *a0) * pow2(fbl(kb, R, *a0)) + fbv(kb, R, *a0)
+
+
+prp_value.define = _prp_value_def
 contract(BPRP + ".__call__", params=dict(self=BPRPT, key=BITS, message=BITS), returns=BITS,
          raises={"ValueError": dict(when="key.length != self.key_bit_length or message.length != self.message_bit_length", iff=True)},
          ensures=["result.length == message.length", "inv(result)",
                   "result.value == fav(i2b(key.value, (key.length + 7) // 8), self.underlying_fpe.rounds, {a}) * "
                   "pow2(fbl(i2b(key.value, (key.length + 7) // 8), self.underlying_fpe.rounds, {a})) + "
-                  "fbv(i2b(key.value, (key.length + 7) // 8), self.underlying_fpe.rounds, {a})".format(a=A0.replace("v.", "message."))],
+                  "fbv(i2b(key.value, (key.length + 7) // 8), self.underlying_fpe.rounds, {a})".format(a=A0.replace("v.", "message.")),
+                  "result.value == prp_value(i2b(key.value, (key.length + 7) // 8), self.underlying_fpe.rounds, message.length, message.value)"],
          gen=lambda rnd: _gen_bprp(rnd), props=["C15", "C01"])
 
 
